@@ -68,6 +68,22 @@ theorem fpOK_of_tableOK {tbl : List Method} (h : TableOK tbl) : FpOK (footprint 
     simp only [hw, hmw, Bool.not_true, Bool.false_or, Bool.and_eq_true, bne_iff_ne, ne_eq] at this
     exact ⟨this.1, sameSub_spec this.2⟩
 
+theorem fpOK_of_fpOKb {fp : List FAcc} (h : fpOKb fp = true) : FpOK fp := by
+  have hall := List.all_eq_true.1 h
+  constructor
+  · intro a ha hheld
+    have := hall a ha
+    simp only [Bool.and_eq_true, Bool.or_eq_true, bne_iff_ne, ne_eq, hheld, not_true_eq_false, false_or,
+      Bool.not_eq_true'] at this
+    rcases this.1 with ⟨h1, h2⟩ | ⟨h1, h2⟩
+    · exact .inl ⟨h1, frozenL_spec h2⟩
+    · exact .inr ⟨h1, sameSub_spec h2⟩
+  · intro a ha hw hnW
+    have := hall a ha
+    simp only [Bool.and_eq_true, Bool.or_eq_true, bne_iff_ne, ne_eq, hw, Bool.not_true, Bool.false_eq_true, false_or,
+      beq_iff_eq, hnW] at this
+    exact ⟨this.2.1, sameSub_spec this.2.2⟩
+
 theorem lockset_of_fpOK {fp : List FAcc} (h : FpOK fp) : LocksetOK fp := by
   intro a ha b hb hloc hw
   -- it suffices to treat "a writes"; the other case is symmetric
